@@ -349,7 +349,11 @@ func WarmTables() {
 	new(edwards25519.Point).VarTimeDoubleScalarBaseMult(s, p, s)
 }
 
-// checkGlobals compares the package-globals digest with a reference snapshot.
+// checkGlobals compares the package-globals digest with a reference snapshot and RECORDS the
+// variables that differ. A difference is not a violation by itself: lazily built tables and
+// pooled scratch legitimately change package-level state during operations; what the
+// properties forbid is a change of OUTPUTS (checked against the model everywhere) and a change
+// of package state caused by writing to a returned value (rawWriteChangedGlobals).
 func (c *Ctx) checkGlobals(ref globalsSnapshot, when string) {
 	if !GlobalsAvailable || ref == nil {
 		c.Inconclusive("globals digest hook not available in this build")
@@ -359,7 +363,28 @@ func (c *Ctx) checkGlobals(ref globalsSnapshot, when string) {
 	c.Tally("globals-digest-checks")
 	for k, v := range ref {
 		if now[k] != v {
-			c.Fail("package-level state changed", map[string]any{"variable": k, "when": when})
+			c.Tally("package-level variable changed since the post-warm-up snapshot (recorded, not a violation by itself): " + k)
+		}
+	}
+}
+
+// rawWrite runs f, which must consist of the harness's own stores into previously returned
+// values and of nothing else (no library call), between two package-globals digests. Any
+// difference is exact: the returned value shares memory with package-level state.
+func (c *Ctx) rawWrite(what string, det func() map[string]any, f func()) {
+	if !GlobalsAvailable {
+		f()
+		return
+	}
+	before := GlobalsDigests()
+	f()
+	after := GlobalsDigests()
+	c.Tally("raw writes to returned values bracketed by package-state digests")
+	for k, v := range before {
+		if after[k] != v {
+			d := det()
+			d["variable"], d["write"] = k, what
+			c.Fail("writing to a returned value changed package-level state", d)
 		}
 	}
 }
